@@ -120,6 +120,89 @@ def callchain(rng) -> bytes:
     return out + body
 
 
+SWEEP = None
+
+
+def sweeper() -> bytes:
+    """a lock satisfied by ANY stack: drop everything, push true"""
+    global SWEEP
+    if SWEEP is None:
+        SWEEP = O('DEPTH') + isa.LOOP(O('POP0') + O('POP0') + O('DEPTH')) \
+            + O('POP0') + O('TRUE')
+    return SWEEP
+
+
+def cut_instruction(rng) -> bytes:
+    """the head of an instruction whose operand bytes end before the
+    instruction does (a script cut off inside an instruction)"""
+    fill = (O('TRUE') + O('POP0')) * 12
+    names = [n for n in isa.NAMES if isa.KIND[n] != 'none']
+    name = rng.choice(names + ['OP_LOOP', 'OP_IF', 'OP_IF_ELSE', 'OP_DEF',
+                               'OP_TRY_EXCEPT', 'OP_PUSH1', 'OP_PUSH2'])
+    k = isa.KIND[name]
+    code = bytes([isa.CODE[name]])
+    if k in ('u8', 'nop'):
+        return code
+    if k in ('u8u8', 'u8u8u8'):
+        return code + bytes(rng.randrange(0, len(k) // 2))
+    if k in ('f4', 'h32'):
+        return code + rbytes(rng, rng.randrange(0, 4 if k == 'f4' else 32))
+    if k in ('lv1', 'lv1u8'):
+        if rng.random() < 0.2:
+            return code
+        n = rng.choice((1, 2, 5, 16, 200))
+        return code + bytes([n]) + rbytes(rng, rng.randrange(0, n))
+    if k == 'lv2':
+        if rng.random() < 0.3:
+            return code + bytes(rng.randrange(0, 2))
+        n = rng.choice((1, 3, 16, 300))
+        return code + n.to_bytes(2, 'big') + rbytes(rng, rng.randrange(0, n))
+    # blocks: a declared length that overruns the script (the bytes that ARE
+    # there are harmless instructions), or a length field cut in half
+    pre = bytes([rng.randrange(3)]) if k == 'def' else b''
+    if rng.random() < 0.15:
+        return code + pre[:rng.randrange(0, 2)] + bytes(rng.randrange(0, 2))
+    n = rng.choice((1, 2, 3, 16, 16, 40, 1000, 65535))
+    have = fill[:rng.randrange(0, min(n, len(fill)))]
+    if k == 'blk2' and rng.random() < 0.5:
+        # the first clause is whole, the second one is cut
+        first = fill[:rng.choice((0, 2, 4))]
+        return code + isa.blk(first) + n.to_bytes(2, 'big') + have
+    return code + pre + n.to_bytes(2, 'big') + have
+
+
+def cutoff_list(rng):
+    """a script list that WOULD authorize if an instruction cut off by the
+    end of its script were quietly stepped over: stack set-up, the cut
+    instruction as the last thing in a script, then a lock that accepts any
+    stack (or, in the last script, a stack that is already [true])"""
+    setup = rng.choice((b'', O('TRUE'), O('FALSE'), O('TRUE') + O('FALSE'),
+                        O('FALSE') + O('TRUE'), isa.push(rbytes(rng, 3)),
+                        isa.push(b'\x00\x00'), O('TRUE') + O('TRUE'),
+                        isa.push(b'\x02') + isa.push(b'\x03')))
+    cut = cut_instruction(rng)
+    inside = rng.random()
+    if inside < 0.2:
+        # the cut instruction ends a clause that ends the script
+        cut = rng.choice((lambda c: O('TRUE') + isa.IF(c),
+                          lambda c: O('FALSE') + isa.IF_ELSE(b'', c),
+                          lambda c: isa.push(c) + O('EVAL'),
+                          lambda c: isa.DEF(5, c) + isa.CALL(5)))(cut)
+    pos = rng.choice(('first', 'first', 'middle', 'last'))
+
+    def mk(cut):
+        if pos == 'first':
+            return [setup + cut, sweeper()]
+        if pos == 'middle':
+            return [setup, cut, sweeper()]
+        return [O('TRUE') + cut] if single else [setup, sweeper() + cut]
+    single = rng.random() < 0.5
+    scripts, control = mk(cut), mk(b'')
+    if rng.random() < 0.3:
+        scripts.insert(0, O('TRUE') + O('POP0'))
+    return scripts[:4], control
+
+
 def witness(rng, lock_info) -> bytes:
     """adversarial witness; lock_info: dict with the handles / keys / items
     the lock consumes."""
